@@ -379,9 +379,9 @@ def bases(ser):
         'Constant(1)': ('instance', lambda: ast.Constant(value=1), ['node', n[ast.Constant], [['node', P(1), []], ['node', ser.NONE, []]]]),
         'Pass()': ('instance', lambda: ast.Pass(), ['node', n[ast.Pass], []]),
         'Add()': ('instance', lambda: ast.Add(), ['node', n[ast.Add], []]),
-        'Load()': ('ctxinst', lambda: ast.Load(), None),
-        'Store()': ('ctxinst', lambda: ast.Store(), None),
-        'Del()': ('ctxinst', lambda: ast.Del(), None),
+        'Load()': ('ctxinst', lambda: ast.Load(), ['ctx']),
+        'Store()': ('ctxinst', lambda: ast.Store(), ['ctx']),
+        'Del()': ('ctxinst', lambda: ast.Del(), ['ctx']),
         # not modelled: source text / callback
         "'a'": ('opaque', lambda: 'a', None),
         're(a|x)': ('opaque', lambda: _re.compile('a|x'), None),
